@@ -69,8 +69,10 @@ class TypeScriptFunctionExtractor(TypeScriptBaseAnalyzer):
             return self._extract_arrow_function(node)
         if node.type == "method_definition":
             return self._extract_method_definition(node)
-        if node.type == "function":
+        if node.type in ("function", "function_expression", "generator_function"):
             return self._extract_function_expression(node)
+        if node.type == "generator_function_declaration":
+            return self._extract_function_declaration(node)
         return None
 
     def _extract_function_declaration(self, node: Any) -> tuple[Any, str]:
